@@ -265,7 +265,7 @@ def valid_case(case):
     try:
         prog.build_program(case)
         return case["cls"] in CTXS
-    except Exception:
+    except (Exception, HarnessError):
         return False
 
 
